@@ -27,6 +27,7 @@ HARNESS = {
     '/repo/internal/db/zz_c09_relation_test.go': f'{V}/harness/db/zz_c09_relation_test.go',
     '/repo/internal/db/zz_c14_restart_test.go': f'{V}/harness/db/zz_c14_restart_test.go',
     '/repo/internal/db/zz_c13_partition_test.go': f'{V}/harness/db/zz_c13_partition_test.go',
+    '/repo/internal/db/zz_c08_filter_laws_test.go': f'{V}/harness/db/zz_c08_filter_laws_test.go',
     '/repo/internal/db/zz_c19_active_test.go': f'{V}/harness/db/zz_c19_active_test.go',
     '/repo/internal/db/zz_c11_update_test.go': f'{V}/harness/db/zz_c11_update_test.go',
 }
@@ -346,6 +347,27 @@ if prop in SCEN:
                    'output': '\n'.join(l for l in out.splitlines() if ' INF ' not in l)[-3000:], 'replay_cmd': f"go test -overlay <harness overlay> -vet=off -run '{run}' {pkg}"}, open(rp, 'w'), indent=1)
         lines.append(f'VIOLATION property={prop} replay={rp}' + ('' if (failed or hung) else ' no-failing-input-found'))
         violations.append(('scenarios', failed))
+
+if prop == 'C08':
+    # the filter laws (boolean algebra of the compound operators, on a plain and on a fully indexed collection)
+    p, res = gotest('^TestGovcC08FilterLaws$', {}, 900)
+    if res is None:
+        rp = f'{V}/replays/{prop}/bounded-harness.json'
+        os.makedirs(os.path.dirname(rp), exist_ok=True)
+        json.dump({'property': prop, 'obligation': 'bounded harness', 'reason': 'the filter law harness no longer builds or runs against the current tree', 'output': (p.stdout + p.stderr)[-4000:]}, open(rp, 'w'), indent=1)
+        print(f'VIOLATION property={prop} replay={rp} no-failing-input-found')
+        sys.exit(1)
+    fl = res.get('problems') or []
+    summary['bound'] = summary.get('bound', '') + '; filter laws: 7 documents (strings, ints, floats, booleans, nulls, empty string), every atomic condition over 4 fields x 3-4 values x {_eq,_ne,_gt,_ge,_lt,_le,_in,_nin}, every _not of an atom and every _and/_or of two atoms, on a collection without and one with an index on every field: _not f = all minus f, _and = intersection, _or = union, _in = union of _eq, _nin and _ne are complements, _ge = _gt or _eq, _le = _lt or _eq (%d evaluations)' % res['cases']
+    summary['cases'] = summary.get('cases', 0) + res['cases']
+    summary['distinct_nontrivial'] = summary['cases']
+    summary['violating_histories'] = summary.get('violating_histories', 0) + len(fl)
+    if fl:
+        rp = f'{V}/replays/{prop}/bounded-history-2.json'
+        os.makedirs(os.path.dirname(rp), exist_ok=True)
+        json.dump({'property': prop, 'obligation': 'bounded stand-in: filter laws', 'problems': fl[:12], 'replay_cmd': "go test -overlay <harness overlay> -vet=off -run '^TestGovcC08FilterLaws$' ./internal/db"}, open(rp, 'w'), indent=1)
+        lines.append(f'VIOLATION property={prop} replay={rp}')
+        violations.append(('filter laws', fl[:3]))
 
 summary['wall_s'] = round(time.time() - t0, 1)
 json.dump(summary, open(f'{work}/{prop}.json', 'w'), indent=1)
